@@ -109,8 +109,13 @@ def case_strategy(draw: Any, carrier: str) -> Dict[str, Any]:
                                                         ["www-authenticate", "Basic"]]),
                                        max_size=2))
         app["chunks"] = draw(st.lists(st.text(alphabet="denied!\n", max_size=8), max_size=3))
+    prior = draw(st.sampled_from([0, 0, 0, 1, 2])) if carrier == "h1" else 0
     return {"carrier": carrier, "sched": draw(st.integers(0, 999)), "handshake": hs, "app": app,
-            "seg": draw(segmentation())}
+            "seg": draw(segmentation()),
+            # ordinary requests served on the connection before the handshake, and the
+            # per-connection request maximum (the handshake may be the last request allowed)
+            "prior": prior,
+            "kamax": draw(st.sampled_from([1000, 1000, prior + 1, prior + 2]))}
 
 
 def is_valid(carrier: str, hs: Dict[str, Any]) -> bool:
@@ -171,7 +176,8 @@ async def scenario(env: Any, case: Dict[str, Any]) -> Any:
     if carrier == "h1":
         kw.update({"http_version": hs["http_version"], "upgrade": hs["upgrade"],
                    "connection": hs["connection"],
-                   "key": make_key(7) if hs["has_key"] else None})
+                   "key": make_key(7) if hs["has_key"] else None,
+                   "prior": case.get("prior", 0)})
     else:
         kw["protocol"] = hs.get("protocol")
     status = await ws.open(**kw)
@@ -219,6 +225,10 @@ def judge(case: Dict[str, Any], obs: Any) -> None:
     if ws.conn.handler_exc is not None:
         raise Violation("handler_exception", repr(ws.conn.handler_exc), backend=be)
     ws_insts = [i for i in obs.instances if i.scope.get("type") == "websocket"]
+    instances = [i for i in obs.instances if i.scope.get("path") != "/prior"]
+    if len(obs.instances) - len(instances) != case.get("prior", 0):
+        raise Violation("harness", f"{case.get('prior')} earlier requests, "
+                        f"{len(obs.instances) - len(instances)} served")
     valid = is_valid(carrier, hs)
     status = val["status"]
     if not valid:
@@ -235,14 +245,14 @@ def judge(case: Dict[str, Any], obs: Any) -> None:
             if status != 400:
                 raise Violation("invalid_handshake_not_400", f"handshake {hs} answered {status}",
                                 backend=be, carrier=carrier)
-            if obs.instances:
+            if instances:
                 raise Violation("app_started_for_invalid_handshake", f"{hs}", backend=be)
         elif status in (101,) or (carrier == "h2" and status == 200 and ws_insts):
             raise Violation("upgrade_without_handshake", f"{hs} -> {status}", backend=be)
         return
-    if len(ws_insts) != 1 or len(obs.instances) != 1:
+    if len(ws_insts) != 1 or len(instances) != 1:
         raise Violation("instance_count", f"valid handshake: {len(ws_insts)} websocket instances "
-                        f"of {len(obs.instances)}", backend=be)
+                        f"of {len(instances)}", backend=be)
     inst = ws_insts[0]
     if not inst.received or inst.received[0]["type"] != "websocket.connect":
         raise Violation("first_message", f"{[m['type'] for m in inst.received]}", backend=be)
@@ -290,6 +300,14 @@ def judge(case: Dict[str, Any], obs: Any) -> None:
     if status != want_status:
         raise Violation("accept_status", f"{status} != {want_status}", backend=be)
     if carrier == "h1":
+        # RFC 6455 4.2.2: the 101 carries "Upgrade: websocket" and "Connection: Upgrade"; a
+        # 101 that also announces "close" is no handshake a client can complete
+        up = [v.strip().lower() for n, v in hdrs if n == b"upgrade"]
+        tokens = [t.strip().lower() for n, v in hdrs if n == b"connection" for t in v.split(b",")]
+        if up != [b"websocket"] or b"upgrade" not in tokens or b"close" in tokens:
+            raise Violation("accept_switch_headers", f"upgrade={up} connection={tokens} "
+                            f"(request {case.get('prior', 0) + 1} of at most "
+                            f"{case.get('kamax')} on the connection)", backend=be)
         tok = [v for n, v in hdrs if n == b"sec-websocket-accept"]
         if tok != [accept_token(make_key(7))]:
             raise Violation("accept_token", f"{tok} != {accept_token(make_key(7))}", backend=be)
@@ -338,8 +356,9 @@ def judge(case: Dict[str, Any], obs: Any) -> None:
 
 
 def run_case(case: Dict[str, Any]) -> CaseInfo:
-    cfg = {"keep_alive_timeout": T_BIG}
-    programs = {"*": app_program(case)}
+    cfg = {"keep_alive_timeout": T_BIG, "keep_alive_max_requests": case.get("kamax", 1000)}
+    programs = {"*": app_program(case),
+                "/prior": [["recv_all"], ["respond", 200, [["content-length", "2"]], ["ok"]]]}
 
     async def sc(env: Any) -> Any:
         return await scenario(env, case)
